@@ -21,7 +21,7 @@ theorem translator_complete : parseFailures = [] := by decide
     `_values_`) is removed by the path afterwards. -/
 theorem policy_covers_writes :
     ∀ m ∈ publicTable, ∀ es ∈ m.2, endsRet es = true → pathOK es = true := by
-  have h : publicTable.coversReturning = true := by decide
+  have h : publicTable.coversReturning = true := by decide +kernel
   intro m hm es hes hr
   have := (List.all_eq_true.mp ((List.all_eq_true.mp h) m hm)) es hes
   simpa [hr] using this
@@ -33,7 +33,7 @@ theorem policy_covers_writes :
 theorem policy_raising_partial :
     ∀ m ∈ publicTable, ∀ es ∈ m.2, endsRet es = false →
       pathOK es = true ∨ raisesInHelperAfterWrite es = true := by
-  have h : publicTable.coversRaising = true := by decide
+  have h : publicTable.coversRaising = true := by decide +kernel
   intro m hm es hes hr
   have := (List.all_eq_true.mp ((List.all_eq_true.mp h) m hm)) es hes
   simpa [hr] using this
@@ -85,7 +85,7 @@ theorem admissible_covered {st : Step} (h : st.admissible publicTable = true) : 
     form (straight pieces; loops with their alternative bodies), passes `segsOK`: an iterate of the abstract
     interpretation of the bodies is CHECKED to be a post-fixpoint, and what follows the loop ends with nothing stale. -/
 theorem loop_policy_checked : ∀ m ∈ loopTable, ∀ segs ∈ m.2, segsOK segs = true := by
-  have h : (loopTable.all fun m => m.2.all segsOK) = true := by decide
+  have h : (loopTable.all fun m => m.2.all segsOK) = true := by decide +kernel
   intro m hm segs hs
   exact (List.all_eq_true.mp ((List.all_eq_true.mp h) m hm)) segs hs
 
@@ -136,14 +136,14 @@ def exemptExits : List String :=
     NumPy can refuse the in-place update of the values, nothing is stale — except at the reviewed sites. -/
 theorem policy_exceptional_exits_partial :
     ∀ m ∈ publicTable, ∀ es ∈ m.2, pathExitsOK exemptExits es = true := by
-  have h : (publicTable.all fun m => m.2.all (pathExitsOK exemptExits)) = true := by decide
+  have h : (publicTable.all fun m => m.2.all (pathExitsOK exemptExits)) = true := by decide +kernel
   intro m hm es hes
   exact (List.all_eq_true.mp ((List.all_eq_true.mp h) m hm)) es hes
 
 /-- … and in every iteration of every loop -/
 theorem loop_exceptional_exits_partial :
     ∀ m ∈ loopTable, ∀ segs ∈ m.2, segsAllExitsOK exemptExits segs = true := by
-  have h : (loopTable.all fun m => m.2.all (segsAllExitsOK exemptExits)) = true := by decide
+  have h : (loopTable.all fun m => m.2.all (segsAllExitsOK exemptExits)) = true := by decide +kernel
   intro m hm segs hs
   exact (List.all_eq_true.mp ((List.all_eq_true.mp h) m hm)) segs hs
 
@@ -299,7 +299,7 @@ theorem inserted_query_irrelevant (h1 h2 : List Step) (c : Core) (q' : Query)
     build `b` from `a.clone(retain_cache=True)` and then modify it; every such path of the NEW object satisfies the
     policy — i.e. the entries that the clone keeps are exactly those the later writes cannot invalidate. -/
 theorem derived_policy_covers : ∀ m ∈ derivedTable, ∀ es ∈ m.2, pathOK es = true := by
-  have h : (derivedTable.all fun m => m.2.all pathOK) = true := by decide
+  have h : (derivedTable.all fun m => m.2.all pathOK) = true := by decide +kernel
   intro m hm es hes
   exact (List.all_eq_true.mp ((List.all_eq_true.mp h) m hm)) es hes
 
